@@ -84,6 +84,48 @@ def keyProofCheckOp (inp : Json) : Except String Json := do
   let p : KeyProof := { c := ← getDec pj "c", xzCap := ← getDec pj "xz_cap", xrCap := xr }
   return boolOutcome (checkKeyProof (znOps n rustBackend) hashH pk p)
 
+/-- reference issuer for the KEY proof: a key over the fixture's `(n, S)` built from harness-chosen
+    exponents, and its correctness proof over the generators marked `covered` (C05, C06) -/
+def keyProveOp (inp : Json) : Except String Json := do
+  let rustBackend := (← getStr inp "backend") == "rust"
+  let n ← getDec inp "n"
+  let sB ← getDec inp "s"
+  let xz ← getDec inp "xz"
+  let xzTilde ← getDec inp "xz_tilde"
+  let o := znOps n rustBackend
+  let pw (b e : Int) : Except String Int := match o.pow b e with
+    | .ok v => pure v
+    | _ => throw "pow failed"
+  let mut rmap : List (String × Int) := []
+  let mut covered : List (String × Int × Int) := []
+  for aj in (← getArr inp "attrs") do
+    let name ← getStr aj "name"
+    let xr ← getDec aj "xr"
+    let rv ← match optField aj "r_override" with
+      | some (.str t) => match parseDecInt t with
+        | some v => pure v
+        | none => throw "bad r_override"
+      | _ => pw sB xr
+    rmap := rmap ++ [(name, rv)]
+    if (← getBool aj "covered") then covered := covered ++ [(name, xr, ← getDec aj "xr_tilde")]
+  let pk : PubKey Int := { s := sB, z := ← pw sB xz, rctxt := ← pw sB (← getDec inp "xrctxt"), r := rmap }
+  -- entries appended to xr_cap after the proof was computed (names the key may not have)
+  let extra ← match optField inp "extra_proof_entries" with
+    | some (.arr es) => es.toList.mapM fun e => do
+        let a ← e.getArr?
+        match a.toList with
+        | [k, v] => pure ((← k.getStr?), (← decOf v))
+        | _ => throw "bad extra entry"
+    | _ => pure []
+  match (newKeyProof o hashH pk xz xzTilde covered).map (fun p => { p with xrCap := p.xrCap ++ extra }) with
+  | .ok p =>
+    let pkJ := Json.mkObj [("n", Json.str (toString n)), ("s", Json.str (toString pk.s)), ("z", Json.str (toString pk.z)),
+      ("rctxt", Json.str (toString pk.rctxt)), ("r", decMapJson pk.r)]
+    let prJ := Json.mkObj [("c", Json.str (toString p.c)), ("xz_cap", Json.str (toString p.xzCap)),
+      ("xr_cap", Json.arr (p.xrCap.map fun (k, v) => Json.arr #[Json.str k, Json.str (toString v)]).toArray)]
+    return Json.mkObj [("status", "ok"), ("pk", pkJ), ("proof", prJ), ("model_verdict", boolOutcome (checkKeyProof o hashH pk p))]
+  | _ => return Json.mkObj [("status", "err")]
+
 /-- everything the model can say about an issued signature (C04) and the holder-side check (C05) -/
 def sigCheckOp (inp : Json) : Except String Json := do
   let rustBackend := (← getStr inp "backend") == "rust"
@@ -222,6 +264,7 @@ def dispatchIssuance (op : String) (inp : Json) : Option (Except String Json) :=
   | "ctx" => some (ctxOp inp)
   | "blinded_check" => some (blindedCheckOp inp)
   | "key_proof_check" => some (keyProofCheckOp inp)
+  | "key_prove" => some (keyProveOp inp)
   | "sig_check" => some (sigCheckOp inp)
   | "sign" => some (signOp inp)
   | "blind_prove" => some (blindProveOp inp)
